@@ -2,8 +2,6 @@ package mempoolrig
 
 import (
 	"fmt"
-	"os"
-	"strings"
 	"math/big"
 	"sort"
 	"testing/synctest"
@@ -101,20 +99,20 @@ type Engine struct {
 	Work *kernel.Tape
 	Sch  *kernel.Tape
 
-	start    time.Time
-	all      []*MTx
-	byHash   map[common.Hash]*MTx
-	everAcc  map[common.Hash]bool
-	live     map[common.Address]map[uint64][]*MTx
+	start   time.Time
+	all     []*MTx
+	byHash  map[common.Hash]*MTx
+	everAcc map[common.Hash]bool
+	live    map[common.Address]map[uint64][]*MTx
 	// held: every transaction the node accepted and may still hold (on offer
 	// or queued), whether or not the oracle still demands anything for it
-	held map[common.Address]map[common.Hash]*MTx
+	held     map[common.Address]map[common.Hash]*MTx
 	inflight []*flight
 	subSeq   int
 	trace    []string
 	steps    int
 
-	U        *UtxoState            // nil: no confidential transactions in this run
+	U        *UtxoState           // nil: no confidential transactions in this run
 	livePure map[common.Hash]*MTx // accepted spends without account input the oracle still demands
 
 	offered     types.Txs // last full reap
@@ -124,7 +122,7 @@ type Engine struct {
 
 	dropGood    time.Duration
 	sinceCommit bool
-	stopped  bool
+	stopped     bool
 }
 
 type flight struct {
@@ -137,18 +135,13 @@ func (e *Engine) now() time.Duration { return time.Since(e.start) }
 
 // Tracef appends to the bounded trace shown as the run's sample.
 func (e *Engine) Tracef(format string, args ...interface{}) {
-	if len(e.trace) < 160 {
+	if len(e.trace) < 160 || debugPool {
 		e.trace = append(e.trace, fmt.Sprintf("%d@%dms ", e.steps, e.now().Milliseconds())+fmt.Sprintf(format, args...))
 	}
 }
 
 // Violate records a violation and stops the run when it is a new one.
 func (e *Engine) Violate(class, key, format string, args ...interface{}) bool {
-	if strings.Contains(","+os.Getenv("MPRIG_ASSUME_KNOWN")+",", ","+key+",") {
-		// test aid: treat a key as a listed finding before it is listed
-		e.C.Probe("assumed-known:" + key)
-		return false
-	}
 	if e.C.Violate(class, key, format, args...) {
 		e.stopped = true
 		e.Tracef("VIOLATION %s: %s", key, fmt.Sprintf(format, args...))
@@ -406,7 +399,13 @@ func (e *Engine) nextFree(u *User) uint64 {
 	for n := range e.live[u.Addr] {
 		used[n] = true
 	}
+	hs := make([]*MTx, 0, len(e.held[u.Addr]))
 	for _, m := range e.held[u.Addr] {
+		hs = append(hs, m)
+	}
+	sort.Slice(hs, func(i, j int) bool { return hs[i].Seq < hs[j].Seq })
+	for _, m := range hs {
+		// mostly avoid nonces the node may still hold a transaction for
 		if t.Bool(3, 4) {
 			used[m.Nonce] = true
 		}
@@ -472,10 +471,7 @@ func (e *Engine) queueAffecting(m *MTx) bool {
 	if m.Nonce < c {
 		return false
 	}
-	if x := e.byHash[m.Hash]; x != nil && x != m {
-		return false
-	}
-	if m.Kind == "dup" {
+	if e.nodeHasOrExecuted(m) {
 		// same bytes as a transaction the node already holds or has executed
 		return false
 	}
@@ -739,6 +735,9 @@ func (e *Engine) Submit(m *MTx, parkBefore, parkAfter bool) *Submission {
 			}
 		}
 	}
+	if !parkBefore && !parkAfter && e.Cfg.Tight && e.entersQueueNow(m) && e.otherQueuedAddr(m.From) {
+		parkBefore = true
+	}
 	f.sub = e.W.Start(e.subSeq, m.Tx, parkBefore, parkAfter)
 	f.sub.Tag = [3]bool{staleAtStart, committedAtStart, spentAtStart}
 	if m.Pure {
@@ -755,10 +754,106 @@ func (e *Engine) Submit(m *MTx, parkBefore, parkAfter bool) *Submission {
 func short(h common.Hash) string { return fmt.Sprintf("%x", h[:3]) }
 
 func (e *Engine) stepRelease(parked []*flight) {
-	f := parked[e.Sch.Int(len(parked))]
+	pick := e.Sch.Int(len(parked))
+	var ok []*flight
+	for _, f := range parked {
+		if e.releasable(f) {
+			ok = append(ok, f)
+		}
+	}
+	if len(ok) == 0 {
+		e.C.Probe("release-deferred")
+		e.Tracef("release deferred (%d parked)", len(parked))
+		return
+	}
+	f := ok[pick%len(ok)]
 	e.Tracef("release #%d", f.sub.ID)
 	e.W.Release(f.sub)
 	e.collect()
+}
+
+// entersQueueNow: would m, entering the pool right now, end in the node's
+// future queue (nonce ahead of the executable one, or the pool full)?
+func (e *Engine) entersQueueNow(m *MTx) bool {
+	if !m.BasicOK || m.Pure {
+		return false
+	}
+	c := e.committedNonce(m.From)
+	if m.Nonce < c {
+		return false
+	}
+	if e.nodeHasOrExecuted(m) {
+		return false
+	}
+	if m.Nonce == c+uint64(len(e.offeredBy[m.From])) && len(e.offered)+1 <= e.W.Cfg.Mem.Size && len(e.offered)+1 <= e.W.Cfg.Mem.MaxReapSize {
+		return false
+	}
+	return true
+}
+
+// nodeHasOrExecuted: the same bytes are committed, or the node may hold them
+// (then a re-delivery is refused as a duplicate or for its nonce).
+func (e *Engine) nodeHasOrExecuted(m *MTx) bool {
+	if e.isCommitted(m) {
+		return true
+	}
+	x, ok := e.held[m.From][m.Hash]
+	return ok && x.Accepted
+}
+
+func (e *Engine) otherQueuedAddr(a common.Address) bool {
+	for _, o := range e.W.Users {
+		if o.Addr != a && len(e.futureSet(o.Addr)) > 0 {
+			return true
+		}
+	}
+	return false
+}
+
+// releasable: may this parked client take its next step now? In tight runs
+// the step that enters the pool is held back while it would give a second
+// account entries in the node's future queue (see canQueue).
+func (e *Engine) releasable(f *flight) bool {
+	if !e.Cfg.Tight {
+		return true
+	}
+	st := f.sub.State()
+	final := st == SubParkedAfter || (st == SubParkedBefore && !f.sub.ParkAfter)
+	if !final || !e.entersQueueNow(f.m) {
+		return true
+	}
+	return !e.otherQueuedAddr(f.m.From)
+}
+
+// drainClients lets every client call return; where the discipline of tight
+// runs holds a client back, blocks are committed to make room first.
+func (e *Engine) drainClients() {
+	for tries := 0; ; tries++ {
+		progressed := false
+		for _, f := range append([]*flight(nil), e.inflight...) {
+			for k := 0; k < 3 && !f.sub.Done() && (tries >= 8 || e.releasable(f)); k++ {
+				e.W.Release(f.sub)
+				progressed = true
+				e.collect()
+				e.refreshOffer()
+			}
+		}
+		e.collect()
+		if len(e.inflight) == 0 || e.Stopped() {
+			return
+		}
+		if !progressed {
+			if tries < 8 {
+				e.C.Probe("drain-needs-block")
+				if e.ProduceFromPool(e.W.MaxTxs()) == nil && e.Stopped() {
+					return
+				}
+				e.refreshOffer()
+			} else if tries > 12 {
+				return
+			}
+		}
+	}
 }
 
 // collect harvests finished submissions.
@@ -1118,10 +1213,10 @@ func (e *Engine) otherQueued(u *User) bool {
 // mempool offers nothing more.
 func (e *Engine) finish() {
 	if !e.Stopped() {
-		for _, f := range append([]*flight(nil), e.inflight...) {
-			e.W.Finish(f.sub)
+		e.drainClients()
+		if e.Stopped() {
+			goto done
 		}
-		e.collect()
 		e.oracle(true)
 		for i := 0; i < 12 && !e.Stopped(); i++ {
 			e.steps++
@@ -1141,6 +1236,7 @@ func (e *Engine) finish() {
 			e.Opt.AtEnd(e)
 		}
 	}
+done:
 	// let every goroutine go
 	for _, f := range e.inflight {
 		e.W.Finish(f.sub)
